@@ -284,10 +284,16 @@ def _scan_expr(e: ast.AST, st: PathState) -> None:
             st.effects.append((st.step, "opaque", self_map(e.func.value), None, None, e, True))
 
 
+def _canon_body(ctx, cls, fn):
+    """canonical body (hv/canon.py) with every private helper of the class seen through (static ones, keyword-only parameters,
+    helpers that return); locals are kept: the path analysis below tracks them itself"""
+    return ctx.canon.body(fn, cls.module, cls, inline=private_helpers(cls))
+
+
 def analyse_mutator(ctx, cls, fn: ast.FunctionDef, file) -> int:
     """returns number of paths analysed"""
     name = f"hugr.utils.BiMap.{fn.name}"
-    body = norm.inline_helpers(fn, norm.class_helper_lookup(cls))
+    body = _canon_body(ctx, cls, fn)
     for n in [x for b_ in body for x in ast.walk(b_)]:
         if isinstance(n, (ast.For, ast.While, ast.Try, ast.With)) and any(
                 self_map(x) for x in ast.walk(n) if isinstance(x, ast.Attribute)):
@@ -397,7 +403,7 @@ def analyse_mutator(ctx, cls, fn: ast.FunctionDef, file) -> int:
             elif g.kind[nid] == "stmt":
                 _exec(s, st)
         for t, kind, taken, node in st.tests:
-            key = (u(node))
+            key = (u(node), show(t))        # the same test text on two different entries (a written-out table) counts twice
             if key in seen_tests:
                 continue
             seen_tests.add(key)
@@ -421,56 +427,76 @@ def analyse_mutator(ctx, cls, fn: ast.FunctionDef, file) -> int:
 
 # ---------------------------------------------------------------------------------------
 def r4_construction(ctx, cls, file) -> None:
+    """path summaries of the canonical __init__: every way of completing either passed the injectivity test on the mapping it
+    copies and inverts, or was given nothing (a falsy argument) and starts empty; every refusal is the failed test"""
     name = "hugr.utils.BiMap.__init__"
     fn = cls.methods.get("__init__")
     if fn is None:
         ctx.broken("anchor vanished: BiMap.__init__")
-    # canonical form: helpers inlined, accumulate loops as comprehensions, pure temporaries substituted
-    g = CFG(norm.forward_subst(norm.normalise_loops(norm.inline_helpers(fn, norm.class_helper_lookup(cls)))))
-    raises = [n for n, s in g.stmt.items() if isinstance(s, ast.Raise) and s.exc is not None and "NotBijection" in u(s.exc)]
-    dom = g.dominators()
-    stores = {mp: [n for n, s in g.stmt.items() if isinstance(s, ast.Assign) and any(
-        isinstance(t, ast.Attribute) and t.attr == mp and isinstance(t.value, ast.Name) and t.value.id == "self"
-        for t in s.targets)] for mp in MAPS}
-    if not raises:
-        ctx.fail("C18.R4", name, file, fn.lineno, "no `raise NotBijection` on any path: a non-injective initial "
-                 "mapping is accepted", fn)
+    from ..rulekit import unold
+    from ..tmpl import T, tmatch
+    P = fn.args.args[1].arg if len(fn.args.args) > 1 else None
+    if P is None:
+        ctx.broken("BiMap.__init__: expected (self, fwd)")
+    ps = ctx.paths("hugr.utils.BiMap.__init__")
+    maps = (P, f"{P} or {{}}", f"({P} or {{}})")
+
+    def card(p):
+        """(mapping text, taken) of the injectivity test on the path, if any"""
+        for t, k in p.tests:
+            for tm in ("len(E_m) == len(set(E_n.values()))", "len(set(E_n.values())) == len(E_m)"):
+                e = tmatch(t, T(tm))
+                if e is not None and e["E_m"].strip("()") == e["E_n"].strip("()"):
+                    return e["E_m"].strip("()"), k
+        return None
+    raises = [p for p in ps if p.kind == "raise"]
+    done = [p for p in ps if p.kind != "raise"]
+    if not any("NotBijection" in p.value_text() for p in raises):
+        ctx.fail("C18.R4", name, file, fn.lineno, "no `raise NotBijection` on any path: a non-injective initial mapping is accepted", fn)
         return
-    ok_guard = False
-    guard_nodes = set()
-    for r in raises:
-        for d in dom[r]:
-            if g.kind.get(d) == "test" and _is_cardinality_test(g.stmt[d]) and g.label.get((d, _next_on(g, d, r))) in ("T", "F", None):
-                ok_guard = True
-                guard_nodes.add(d)
-    if not ok_guard:
-        ctx.fail("C18.R4", name, file, g.stmt[raises[0]].lineno,
-                 "the NotBijection raise is not controlled by a test comparing the number of keys with the number of "
-                 "distinct values", g.stmt[raises[0]])
-    else:
-        ctx.ok("C18.R4", name + ":guard", "cardinality test controls raise NotBijection")
-    # the guard must be reachable unconditionally: it is on every path to the normal exit
-    reach_wo = g.reachable(0, avoid=guard_nodes)
-    if ok_guard and EXIT in reach_wo:
-        ctx.fail("C18.R4", name + ":skippable", file, fn.lineno,
-                 "some path reaches the end of __init__ without passing the injectivity test", fn)
-    elif ok_guard:
-        ctx.ok("C18.R4", name + ":dominates", "every normal exit passes the injectivity test")
-    # bck is the inversion of the mapping fwd is copied from
-    for mp in MAPS:
-        if not stores[mp]:
-            ctx.fail("C18.R4", f"{name}:{mp}", file, fn.lineno, f"self.{mp} is never assigned in __init__", fn)
-    if stores["fwd"] and stores["bck"]:
-        sf = g.stmt[stores["fwd"][-1]].value
-        sb = g.stmt[stores["bck"][-1]].value
-        src_f = _copied_from(sf)
-        inv = _inverted_from(sb)
-        ctx.check(src_f is not None, "C18.R4", name + ":fwd-copy", file, sf.lineno,
-                  "self.fwd must be a fresh dict copy of the argument (aliasing the caller's mapping lets it change "
-                  "behind the map's back)", sf, detail=f"fwd = copy of {src_f}")
-        ctx.check(inv is not None and (src_f is None or inv == src_f or inv == "self.fwd"), "C18.R4", name + ":bck-inverse", file, sb.lineno,
-                  f"self.bck must be the inversion {{v: k for k, v in <mapping>.items()}} of the same mapping as fwd", sb,
-                  expected="{v: k for k, v in fwd.items()}", found=u(sb), detail=f"bck = inverse of {inv}")
+    ok_guard = all("NotBijection" in p.value_text() and card(p) is not None and card(p)[1] is False and card(p)[0] in [m_.strip("()") for m_ in maps] for p in raises)
+    ctx.check(ok_guard, "C18.R4", name + ":guard", file, fn.lineno,
+              "the NotBijection raise is not controlled by a test comparing the number of keys with the number of distinct values", fn,
+              detail="cardinality test controls raise NotBijection")
+    ok_dom = ok_copy = ok_inv = bool(done)
+    f_copy = f_inv = ""
+    tested_seen = False
+    for p in done:
+        sf = [e for e in p.effects if isinstance(e, ast.Assign) and u(e.targets[0]) == "self.fwd"]
+        sb = [e for e in p.effects if isinstance(e, ast.Assign) and u(e.targets[0]) == "self.bck"]
+        if len(sf) != 1 or len(sb) != 1:
+            ok_copy = ok_inv = False
+            f_copy = f_inv = "self.fwd / self.bck not assigned exactly once on " + p.describe()
+            continue
+        c = card(p)
+        if c is not None and c[1] is True:
+            tested_seen = True
+            m_ = c[0]
+            src_f = _copied_from(sf[0].value)
+            inv = _inverted_from(sb[0].value)
+            f_copy, f_inv = unold(sf[0].value), unold(sb[0].value)
+            ok_copy = ok_copy and src_f is not None and src_f.strip("()") == m_
+            ok_inv = ok_inv and inv is not None and inv.strip("()") in (m_, "self.fwd")
+        elif p.has_test(P, False) is not None or p.has_test(f"{P} is not None", False) is not None:
+            # nothing given: both views start empty (an empty mapping is a bijection)
+            empty = all(u(x.value) in ("{}", "dict()") for x in sf + sb)
+            given_none_only = p.has_test(P, False) is None
+            if given_none_only:
+                empty = empty or (u(sf[0].value) in ("{}", "dict()") and u(sb[0].value) in ("{}", "dict()"))
+            ok_dom = ok_dom and empty
+            if not empty:
+                f_copy = "a path for a missing argument stores " + " / ".join(u(x.value) for x in sf + sb)
+        else:
+            ok_dom = False
+    ctx.check(ok_dom and tested_seen, "C18.R4", name + ":dominates", file, fn.lineno,
+              "some path reaches the end of __init__ without passing the injectivity test (other than for a missing / empty argument, which starts empty)", fn,
+              detail="every normal exit passes the injectivity test")
+    ctx.check(ok_copy, "C18.R4", name + ":fwd-copy", file, fn.lineno,
+              "self.fwd must be a fresh dict copy of the argument (aliasing the caller's mapping lets it change behind the map's back)", fn,
+              found=f_copy, detail=f"fwd = {f_copy}")
+    ctx.check(ok_inv, "C18.R4", name + ":bck-inverse", file, fn.lineno,
+              "self.bck must be the inversion {v: k for k, v in <mapping>.items()} of the same mapping as fwd", fn,
+              expected="{v: k for k, v in fwd.items()}", found=f_inv, detail=f"bck = {f_inv}")
 
 
 def _next_on(g, d, r):
@@ -605,9 +631,9 @@ def r5_delegation(ctx, cls, file) -> None:
                          fn, expected=f"self.{target}({', '.join(p if order == 'same' else reversed(p))})", found=u(e))
     # deletions raise KeyError for an absent key: strict lookups only
     for mname, mp in {"delete_left": "fwd", "delete_right": "bck"}.items():
-        fn = cls.methods.get(mname)
-        if fn is None:
+        if cls.methods.get(mname) is None:
             ctx.broken(f"anchor vanished: BiMap.{mname}")
+        fn = ctx.cfn(f"hugr.utils.BiMap.{mname}")       # canonical body: unknown helpers are seen through
         p = params(fn)
         lenient = []
         for n in ast.walk(fn):
@@ -651,7 +677,7 @@ def run(ctx) -> None:
     for name, fn in cls.methods.items():
         if name == "__init__" or name in helpers:
             continue            # helpers are analysed in the context of every caller (inlined)
-        body = norm.inline_helpers(fn, norm.class_helper_lookup(cls))
+        body = _canon_body(ctx, cls, fn)
         nodes = [n for b_ in body for n in ast.walk(b_)]
         touches = any(isinstance(n, ast.Subscript) and self_map(n.value) and isinstance(n.ctx, (ast.Store, ast.Del)) for n in nodes) \
             or any(isinstance(n, ast.Call) and isinstance(n.func, ast.Attribute) and n.func.attr in DICT_MUTATORS and self_map(n.func.value) for n in nodes) \
